@@ -12,10 +12,16 @@ import (
 	"verifharness/props/c03"
 	"verifharness/props/c04"
 	"verifharness/props/c05"
+	"verifharness/props/c12"
 	"verifharness/props/c17"
+	"verifharness/props/c18"
+	"verifharness/props/c19"
 )
 
 var props = map[string]func(*core.Ctx) int{
+	"C19": c19.Run,
+	"C18": c18.Run,
+	"C12": c12.Run,
 	"C01": c01.Run,
 	"C02": c02.Run,
 	"C03": c03.Run,
